@@ -181,12 +181,14 @@ def run(ctx):
                     # (3) paths under the cache must be derived from hashes only
                     if op not in ("clear", "list", "index_ls"):
                         for p in paths:
-                            if p.startswith(cache + "/") and not p.startswith(os.path.join(cache, "tmp") + "/"):
+                            # only the index and content areas have a prescribed layout; whatever else the library keeps
+                            # inside the cache directory (its temp area, under any name) is not judged here
+                            if p.startswith(os.path.join(cache, "index-v5") + "/") or p.startswith(os.path.join(cache, "content-v2") + "/"):
                                 pp = p[:-10] if p.endswith(" (deleted)") else p
                                 if pp not in al:
                                     ctx.violation(f"{op}|{mode}|path-not-derived-from-hash",
                                                   f"{op} touched {os.path.relpath(pp, cache)!r} inside the cache, which is "
-                                                  f"neither tmp/*, the key's SHA-1 bucket path nor a known content address", det)
+                                                  f"neither the key's SHA-1 bucket path nor a known content address", det)
                     if not sysm.is_mutating(e) or not ok_ret:
                         continue
                     targets = sysm.mutation_targets(e)
